@@ -117,6 +117,7 @@ def run(ctx):
     behs, r = vlib.simulate_behaviours("AccessBarrier.tla", "Sim_AB.cfg", ctx.wd, 3000 if T else 400, 90, vlib.seed())
     scripts = [beh_to_script(b, rng.randrange(1 << 30)) for b in behs]
     scripts = [s for s in scripts if s["procs"]]
+    vlib.require_ops(ctx, scripts, "AccessBarrier.tla simulated behaviours")
     ctx.add_sample({"kind": "TLC-simulated behaviour as gate schedule (M3)", "procs": scripts[0]["procs"], "sched": scripts[0]["sched"][:40]})
     tr, info = run_scripts(ctx, scripts, "m3sim")
     validate(ctx, tr, info, "TLC-simulated schedules on the real barrier")
@@ -139,7 +140,7 @@ def run(ctx):
         os.remove(tr)
     # ---- binding demonstration
     if not ctx.violations:
-        lines = open(first_tr).read().splitlines()[:400]
+        lines = open(first_tr).read().splitlines()
         cut = None
         for i, ln_ in enumerate(lines):
             if '"Destruct"' in ln_:
@@ -149,8 +150,9 @@ def run(ctx):
             # drop one destructor event: the API spec must notice (C17 at the next quiescence, or order)
             j = cut
             end = next((k for k in range(cut, len(lines)) if '"AbInit"' in lines[k]), len(lines))
+            start = max(k for k in range(0, cut) if '"AbInit"' in lines[k])
             cp = os.path.join(ctx.wd, "corrupt.ndjson")
-            open(cp, "w").write("\n".join(lines[:cut] + lines[cut + 1:end]) + "\n")
+            open(cp, "w").write("\n".join(lines[start:cut] + lines[cut + 1:end]) + "\n")
             saved = (ctx.events, ctx.traces, ctx.states, ctx.transitions)
             bad = ctx.validate("BarrierAPI.tla", "Trace_BarrierAPI.cfg", cp, "binding self-test (one Destruct event removed)", 0)
             ctx.events, ctx.traces, ctx.states, ctx.transitions = saved
